@@ -253,7 +253,7 @@ class SimpleCommand(BaseCommand):
 
         if not (
             isinstance(self.arg_type, str) or isinstance(arg.content, self.arg_type)
-        ):
+        ) or (self.arg_type == int and isinstance(arg.content, bool)):
             return f"Arguments must be of type {self.arg_type}"
 
     def __verify_args(self, args: Arguments) -> str | None:
